@@ -177,6 +177,12 @@ pub fn tables(world: &mut World) -> Vec<TableEntry>
     out
 }
 
+/// All entities that currently store a system command (reactors, world reactors, plain system commands).
+pub fn system_commands(world: &mut World) -> Vec<Entity>
+{
+    world.query_filtered::<Entity, With<SystemCommandStorage>>().iter(world).collect()
+}
+
 /// Whether `entity` currently carries the local data of entity world reactor `T`.
 pub fn has_entity_world_local<T: EntityWorldReactor>(world: &World, entity: Entity) -> bool
 {
